@@ -83,9 +83,10 @@ fn run_seq(alpha: &[WCall], hist: &[usize], insert: Option<&WCall>, cont: &[&WCa
         let r = apply_call::<V>(&mut w, c);
         snaps.push(Snapshot { result: r, dest: w.get_ref().data.clone() });
     }
-    match w.into_inner() {
-        Ok(d) => (ins, snaps, Ok(()), d.data),
-        Err(e) => (ins, snaps, Err(crate::obs::norm_werr(&e)), Vec::new()),
+    match std::panic::catch_unwind(std::panic::AssertUnwindSafe(move || w.into_inner())) {
+        Ok(Ok(d)) => (ins, snaps, Ok(()), d.data),
+        Ok(Err(e)) => (ins, snaps, Err(crate::obs::norm_werr(&e)), Vec::new()),
+        Err(p) => (ins, snaps, Err(WErr::Panic(crate::obs::panic_msg(p))), Vec::new()),
     }
 }
 
@@ -178,6 +179,9 @@ impl<'a> Explorer<'a> {
                         bad = Some((format!("{}/destination-differs-after-later-call", kind), format!("after later call #{} {}: {} vs {}", k, cont[k].short(), hex(&a.dest), hex(&b.dest))));
                         break;
                     }
+                }
+                if let Err(WErr::Panic(p)) = &fb {
+                    bad = Some((format!("{}/into_inner-panics-after-rejected-call", kind), p.clone()));
                 }
                 if bad.is_none() && (!same_result(&fa, &fb) || oa != ob) {
                     bad = Some((format!("{}/final-output-differs", kind), format!("into_inner {:?} {} vs {:?} {}", fa, hex(&oa), fb, hex(&ob))));
